@@ -335,11 +335,9 @@ def r3_filename(report, repo):
               'that name')
   f = repo.func(CB, 'OutputToFile.create_file_name')
   fs = core.calls_in(f.node, attr='format_string')
-  rd = lib.local_from(f, lib.calls(attr='convert_to_base_types'),
-                      'record_dict')
-  ok = len(fs) == 1 and [dotted(a) for a in fs[0].args] == [
-      'self.filename_pattern', rd]
-  defs = lib.resolve_local(f, rd)
+  ok = len(fs) == 1 and len(fs[0].args) == 2 and \
+      dotted(fs[0].args[0]) == 'self.filename_pattern'
+  defs = lib.resolved(f, fs[0].args[1]) if ok else []
   ok = ok and len(defs) == 1 and last_attr(defs[0]) == 'convert_to_base_types' \
       and dotted(defs[0].args[0]) == lib.param_names(f.node)[1]
   if ok:
@@ -357,7 +355,7 @@ def r3_filename(report, repo):
   ok = len(cf) == 1 and len(of) == 1 and dotted(cf[0].args[0]) == \
       lib.param_names(o.node)[1]
   if ok:
-    src = lib.resolve_local(o, dotted(of[0].args[0]) or '')
+    src = lib.resolved(o, of[0].args[0])
     ok = len(src) == 1 and src[0] is cf[0]
   report.check(ok, rule, o.qualname, 'opens-that-name', o.node,
                'the file opened is the one named by create_file_name(record)')
